@@ -74,6 +74,8 @@ def programs(tier, seed):
         for _ in range(reps):
             cmp_, side, pos, st = combos[k % len(combos)]; k += 7
             T = TYPES[k % 3] if tier == 'thorough' else ('unsigned int' if (k // 7) % 6 == 3 else ('int' if k % 5 else 'long'))
+            if tier != 'thorough' and T == 'unsigned int' and not pos:
+                T = 'int'       # a descending unsigned loop wraps below zero and never ends sequentially: no admissible input (thorough keeps them, cut by the trip-count bound)
             heads.append((T, init, cmp_, side, bound, st, pos))
     progs = []; seen = set()
     for n, (T, init, cmp_, side, bound, st, pos) in enumerate(heads):
